@@ -11,7 +11,8 @@ def nnls_outside_reliable_region(case, message, params):
     from vlib.props import c01
 
     if "nnls.call" in message:
-        if not ("Maximum number of iterations" in message or "zero-size array" in message):
+        # the exceptions scipy's nnls raises when its normal-equation solves break down
+        if not ("Maximum number of iterations" in message or "zero-size array" in message or "LinAlgError" in message):
             return False
     return not c01.in_reliable_region(*c01.build(case), params)
 
